@@ -328,6 +328,8 @@ def reshape_helpers(ctx, rule):
 
 
 def run(ctx):
+    from .common import accumulation_setter
+    ctx.guard("R16.3", "accumulation-setter", accumulation_setter, ctx, "R16.3")
     ctx.guard("R16.6", "reshape", reshape_helpers, ctx, "R16.6")
     ctx.guard("R16.1", "connect", key_agreement, ctx, "R16.1", "network::Network::connect", "connect", "connect", True)
     ctx.guard("R16.2", "forward", r2, ctx)
